@@ -45,6 +45,7 @@ func c14Alphabet() []seqSym {
 		sy("SET", "k1", "a", "EX", "-2.5", "POINT", "7", "7"), // gone at the next sweep, not persistent
 		sy("SET", "k1", "a", "EX", "10000000000", "POINT", "7", "7"), // beyond the int64 nanosecond range: never early
 		sy("EXPIRE", "k1", "a", "10000000000"),
+		sy("EXPIRE", "k1", "a", "-10000000000"), // the other end of the range: overdue, not immortal
 		sy(append([]string{"SETCHAN", "chx", "EX", "10000000000"}, fence...)...),
 		sy("SET", "k1", "a", "EX", "nan", "POINT", "7", "7"), // not a number of seconds: refused
 		sy("EXPIRE", "k1", "a", "NaN"),
@@ -338,6 +339,9 @@ func checkC14(job *Job, res *Result) {
 	if job.Shard == 1%job.NShards && job.Replay == nil {
 		c14NoLog(job, res, phases)
 	}
+	if job.Shard == 2%job.NShards && job.Replay == nil {
+		c14Overdue(job, res)
+	}
 }
 
 // timerDump lists every pending timer the server holds: the expiry index of each
@@ -368,6 +372,56 @@ func timerDump(s *Server) string {
 // replica (started from a config file that names its leader) that is promoted
 // with FOLLOW no one expires what it is given from then on; what it was given
 // before, by its leader, expires too.
+// c14Overdue: a deadline far in the past (the low end of the TTL range) is overdue,
+// never a long life: TTL says 0 until the sweep, and a rewrite of the log that meets
+// the object before the sweep does not hand it a new life across a restart.
+func c14Overdue(job *Job, res *Result) {
+	for _, ttl := range []string{"-10000000000", "-9223372036", "-9223372036.8", "-1e300", "-4611686018", "-5"} {
+		for _, how := range []string{"SET EX", "EXPIRE"} {
+			for _, shrink := range []bool{false, true} {
+				ttl, how, shrink := ttl, how, shrink
+				viol := func(sig, detail string) {
+					res.Violate("C14/overdue:"+sig, fmt.Sprintf("%s  [%s %s, rewrite before the sweep: %v]", detail, how, ttl, shrink), map[string]any{"overdue": ttl, "how": how, "shrink": shrink})
+				}
+				x := runExec(job, freezeAllBut("backgroundExpiring"), func(x *Exec) {
+					dir := x.dir + "/L"
+					in := x.Start("L", dir, 9001, nil)
+					c := x.Dial(in.Addr)
+					c.Do("SET", "k", "other", "POINT", "1", "1")
+					if how == "SET EX" {
+						c.Do("SET", "k", "a", "EX", ttl, "POINT", "7", "7")
+					} else {
+						c.Do("SET", "k", "a", "POINT", "7", "7")
+						c.Do("EXPIRE", "k", "a", ttl)
+					}
+					vsched.Sleep(int64(30 * stdtime.Millisecond)) // before the first sweep (200 ms)
+					res.Evaluations++
+					res.DistinctS(fmt.Sprint("overdue", ttl, how, shrink))
+					if r := c.Do("TTL", "k", "a"); r.String() != ":0" && r.String() != ":-2" && !r.Null && !r.IsErr() {
+						viol("ttl", "30 ms after the command TTL k a replies "+r.String())
+					}
+					if shrink {
+						waitShrink(in, c)
+					}
+					c.Close()
+					in.Stop()
+					vsched.Paused[in.Name] = true
+					in2 := x.Start("L2", dir, 9002, nil)
+					c2 := x.Dial(in2.Addr)
+					vsched.Sleep(int64(700 * stdtime.Millisecond))
+					vsched.Quiesce()
+					if g := c2.Do("GET", "k", "a"); !g.Null && !g.IsErr() {
+						viol("immortal-after-restart", fmt.Sprintf("after a restart and 0.7 s the object is still served, TTL %s", c2.Do("TTL", "k", "a")))
+					}
+				})
+				if x.Err != "" || len(x.Crashes) > 0 {
+					viol("hang-or-crash", fmt.Sprint(x.Err, x.Crashes))
+				}
+			}
+		}
+	}
+}
+
 // c14NoLog: a server that keeps no log (appendonly no) expires and announces like any
 // other: 4 ways of giving an object a deadline x 3 sweeper phases, observed by a live
 // fence and by a channel subscriber.
